@@ -1,13 +1,13 @@
 package agent
 
 import (
-	"os"
 	"bytes"
 	"context"
 	"crypto/rand"
 	"fmt"
 	"io"
 	"net"
+	"os"
 	"strings"
 	"sync"
 	"testing"
